@@ -403,6 +403,9 @@ func runWireCase(t *testing.T, r *rep.Reporter, c *rep.Case, ci int) {
 		r.Count("wire_replies", 1)
 		r.Count("wire_replies_"+ch.Group, 1)
 		judged++
+		if judged == 1 {
+			r.Sample(ob) // the reporter keeps the first few as literal samples for the evidence file
+		}
 		if rp.Code/100 != 4 && rp.Code/100 != 5 {
 			c.Inconclusive(fmt.Sprintf("injected failure at %s/%s was not reported to the client: %s", stage, via, rp))
 			return
